@@ -15,7 +15,11 @@ bioExprDraws, bioExprDerive — modelled, not verified).
 * engine: `bioDraws` reads `draws[individual][drawIndex][drawId]`; `MonteCarlo` =
   `(Σ_{r<R} child at draw index r) / R`; `Derive(e, name)` = gradient entry of `e` w.r.t. the
   literal `name`;
-* `BIOGEME.__init__`: `if seed != 0: np.random.seed(seed)`.
+* `IdManager.prepare`: all literals are numbered together — free betas, fixed betas, random
+  variables, draw variables (each group sorted by name), database columns (in their order);
+  `Derive.get_signature` writes `elementary_expressions.indices[name]`; the engine's
+  `bioExprDerive` asks its child for the gradient w.r.t. that one literal id;
+* `BIOGEME.__init__`: `if seed != 0: np.random.seed(seed)`, before anything else uses the generator.
 
 Core Lean only.
 -/
@@ -170,7 +174,44 @@ def diffVar (j : Nat) : IExpr → IExpr
   | .mul a b => .add (.mul (diffVar j a) b) (.mul a (diffVar j b))
   | .exp a => .mul (.exp a) (diffVar j a)
 
+/-- engine `bioExprDerive(child, literalId)`: every elementary expression of the formula (parameter,
+data column, draw variable) is a *literal* carrying the unique id written in its own signature line;
+the derivative of a literal w.r.t. the requested id is `1` iff the two ids are equal, else `0`
+(`bioExprLiteral::getValueAndDerivatives`); the operators propagate by the usual rules.
+`bid`, `vid`, `did` give the id of the parameter at position `i`, of the data column at position `j`
+and of the draw variable `name`. -/
+def diffLit (lit : Nat) (bid vid : Nat → Nat) (did : String → Nat) : IExpr → IExpr
+  | .num _ _ _ => .nat 0
+  | .nat _ => .nat 0
+  | .beta k => if bid k = lit then .nat 1 else .nat 0
+  | .var k => if vid k = lit then .nat 1 else .nat 0
+  | .draw n => if did n = lit then .nat 1 else .nat 0
+  | .add a b => .add (diffLit lit bid vid did a) (diffLit lit bid vid did b)
+  | .sub a b => .sub (diffLit lit bid vid did a) (diffLit lit bid vid did b)
+  | .mul a b => .add (.mul (diffLit lit bid vid did a) b) (.mul a (diffLit lit bid vid did b))
+  | .exp a => .mul (.exp a) (diffLit lit bid vid did a)
+
 end eval
+
+/-! ## the global numbering of the literals (`IdManager.prepare`) and `Derive.get_signature` -/
+
+/-- `elementary_expressions.names`: free parameters, fixed parameters, random variables of numerical
+integration, draw variables (each group `sorted(dict)`), then the columns of the database in their
+own order -/
+def allLiterals (free fixed rvs draws cols : List String) : List String :=
+  sortNames free ++ sortNames fixed ++ sortNames rvs ++ sortNames draws ++ cols
+
+/-- `elementary_expressions.indices[name]`, the id written in the literal's signature line and the
+one `Derive.get_signature` sends to the engine for the name it was given (the id manager refuses
+formulas in which one name denotes two literals) -/
+def literalIndex (all : List String) (name : String) : Nat := all.idxOf name
+
+/-- value of `Derive(e, name)` as the engine computes it for one row and one value of every draw
+variable: `e` differentiated w.r.t. the literal whose id is the global index of `name`; `bname i` /
+`vname j` are the names of the parameter at position `i` / the data column at position `j` -/
+def deriveNamed (all : List String) (bname vname : Nat → String) (name : String) (e : IExpr) : IExpr :=
+  diffLit (literalIndex all name) (fun i => literalIndex all (bname i))
+    (fun j => literalIndex all (vname j)) (fun n => literalIndex all n) e
 
 /-! ## seeding -/
 
